@@ -27,7 +27,11 @@ func BuildSSAFromPackages(initialPkgs []*packages.Package) (*ssa.Program, *ssa.P
 		// In a real system, log these errors
 	}
 
-	mode := ssa.InstantiateGenerics
+	// Generic functions are analysed in their generic form only. Instantiating them (what
+	// ssa.InstantiateGenerics does, transitively, for every reachable combination of type
+	// arguments) builds functions that are never fingerprinted, and a chain of generic functions
+	// that each instantiate the previous one twice made that 2^n of them.
+	mode := ssa.BuilderMode(0)
 	prog, pkgs := ssautil.AllPackages(initialPkgs, mode)
 	if prog == nil {
 		return nil, nil, fmt.Errorf("failed to initialize SSA program builder")
